@@ -23,6 +23,9 @@ use std::cmp::Ordering;
 #[derive(Clone, Copy, PartialEq, Eq, Debug)]
 pub struct Fr(pub BigInt<4>);
 
+#[derive(Clone, Copy)]
+pub struct PowLog { pub calls: u32, pub base: [u64; 4], pub exp: [u64; 4], pub exp_len: usize, pub ret: [u64; 4] }
+pub static mut POW_LOG: PowLog = PowLog { calls: 0, base: [0; 4], exp: [0; 4], exp_len: 0, ret: [0; 4] };
 pub const P_LIMBS: [u64; 4] = [0x43e1f593f0000001, 0x2833e84879b97091, 0xb85045b68181585d, 0x30644e72e131a029];
 
 fn lt_limbs(a: &[u64; 4], b: &[u64; 4]) -> bool {
@@ -65,12 +68,27 @@ impl Fr {
     pub fn is_zero(&self) -> bool { self.0 .0[0] == 0 && self.0 .0[1] == 0 && self.0 .0[2] == 0 && self.0 .0[3] == 0 }
     pub fn zero() -> Fr { Fr(BigInt::new([0, 0, 0, 0])) }
     pub fn one() -> Fr { Fr(BigInt::new([1, 0, 0, 0])) }
-    /// ark_ff::Field::pow: uninterpreted, some canonical field element (trusted base).
-    pub fn pow<S: AsRef<[u64]>>(&self, _exp: S) -> Fr {
+    /// ark_ff::Field::pow (trusted base), PARTIALLY interpreted: the algebraic facts that hold in every field are built in
+    /// (x^0 = 1 — also for x = 0, ark-ff and circom agree —, 0^e = 0 for e != 0, 1^e = 1, x^1 = x); for every other pair the result is
+    /// some canonical field element, recorded together with the arguments in `POW_LOG` so that a harness can state
+    /// "the result is the trusted power of exactly these operands" without fixing how the code reaches it.
+    pub fn pow<S: AsRef<[u64]>>(&self, exp: S) -> Fr {
+        let e = exp.as_ref();
+        let mut el = [0u64; 4];
+        let mut i = 0;
+        while i < 4 { if i < e.len() { el[i] = e[i]; } i += 1; }
+        let is = |x: &[u64; 4], v: u64| x[0] == v && x[1] == 0 && x[2] == 0 && x[3] == 0;
+        if e.len() <= 4 {
+            if is(&el, 0) { return Fr::one(); }
+            if is(&self.0 .0, 0) { return Fr::zero(); }
+            if is(&self.0 .0, 1) { return Fr::one(); }
+            if is(&el, 1) { return *self; }
+        }
         #[cfg(kani)]
         {
             let r: [u64; 4] = [kani::any(), kani::any(), kani::any(), kani::any()];
             kani::assume(lt_limbs(&r, &P_LIMBS));
+            unsafe { POW_LOG = PowLog { calls: POW_LOG.calls + 1, base: self.0 .0, exp: el, exp_len: e.len(), ret: r }; }
             return Fr(BigInt::new(r));
         }
         #[cfg(not(kani))]
